@@ -13,5 +13,6 @@ CONSTANTS
   Bads = {{}, {1}, {2}, {1, 2}, {2, 3}}
   Longs = {FALSE, TRUE}
   RootSet = {0}
+  Transforms = {"none", "head", "tail"}
 INVARIANTS MCTypeOK MCSound MCSoundSkip MCComplete MCCompleteSkip MCNeverSplit MCBadAlone MCOthersUnaffected MCFilterHonoured
 CHECK_DEADLOCK FALSE
